@@ -655,6 +655,132 @@ def comp_simd(prop, tier, comp, work):
 
 
 # --------------------------------------------------------------------------------------------
+# R-CONSTBRANCH (C09): in every resolve_optype<void, index::TAG_t, P...> specialisation the compile-time
+# branch is *defined as* the run-time function paired with TAG_t applied to to_value_v<P_k> in the order of
+# the specialisation's parameters, and every constant (ct<..>, clipped_*<..>) it builds takes its value from
+# that call's result unmodified.  Then "computed at compile time == computed at run time" holds by construction.
+# --------------------------------------------------------------------------------------------
+def rule_constbranch(rows, prop):
+    tbl = load_table("constbranch_tables.json")
+    findings, samples = [], []
+    fns = [r for r in rows if "fn" in r]
+    # pairing TAG -> run-time functions, read from the source: functions that name resolve_optype_t<TAG,...>
+    pair = {}
+    for r in fns:
+        if r.get("lambda") or not r["fn"].startswith("nmtools::index::"):
+            continue
+        for f in r["facts"]:
+            if f["k"] == "alias":
+                for m in re.finditer(r"resolve_optype_t<(?:index::)?(\w+)", f["b"]):
+                    pair.setdefault(m.group(1), set()).add(r["fn"].split("::")[-1])
+    groups = {}
+    for r in fns:
+        if r.get("lambda") and r.get("spec_of", "").endswith("resolve_optype") and len(r.get("spec_args", [])) >= 2:
+            groups.setdefault((r["file"], tuple(r["spec_args"])), []).append(r)
+    n_inst = 0
+    for (file, sargs), rs in sorted(groups.items()):
+        tag = re.sub(r"^(?:nmtools::)?(?:index::)?", "", sargs[1])
+        params = list(sargs[2:])
+        outer = [r for r in rs if r.get("lambda_var", "").endswith("::vtype")]
+        if not outer:
+            continue
+        o = outer[0]
+        allfacts = [f for r in rs for f in r["facts"]]
+        locs = {}
+        for f in o["facts"]:
+            if f["k"] == "local":
+                locs.setdefault(f["a"], f["b"])
+        fnames = pair.get(tag, set()) | set(tbl["extra_pairing"].get(tag, []))
+        calls = []
+        for name, init in locs.items():
+            pc = parse_call(init)
+            if pc and re.sub(r"^(?:nmtools::)?index::", "", pc[0]) in fnames:
+                calls.append((name, pc))
+        consts = []
+        for f in allfacts:
+            if f["k"] == "alias":
+                for m in re.finditer(r"\b(ct|clipped_size_t|clipped_integer_t|clipped_index_t)<([^<>]*(?:\([^()]*\))?[^<>]*)>", f["b"]):
+                    consts.append((f, m.group(1), m.group(2).strip()))
+        if not calls:
+            if consts and tag not in tbl["no_runtime_call"]:
+                n_inst += 1
+                findings.append(finding("R-CONSTBRANCH.nocall", prop, o, tag, "specialisation builds constants %s but never calls a run-time function paired with %s (%s)" % (sorted(set(c[2] for c in consts))[:4], tag, sorted(fnames))))
+            continue
+        n_inst += 1
+        results = set()
+        for name, (callee, args) in calls:
+            results.add(name)
+            order = []
+            for a in args:
+                src = locs.get(a[1:], a) if a.startswith("%") else a
+                m = re.fullmatch(r"(?:meta::)?to_value_v<(.+)>", src) or re.fullmatch(r"(\w+)\{+\}+", src)
+                if m and m.group(1) in params:
+                    order.append(params.index(m.group(1)))
+                elif re.fullmatch(r"lambda@\d+\(\)", src) or a in tbl["allowed_call_args"].get(tag, {}):
+                    order.append(None)     # value prepared by a helper lambda (e.g. None-aware conversion), reviewed
+                else:
+                    findings.append(finding("R-CONSTBRANCH.arg", prop, o, init_str(callee, args), "argument '%s' (= %s) of the paired run-time call is not to_value_v<P> of a parameter of the specialisation %s" % (a, src, params)))
+                    order.append(None)
+            seq = [x for x in order if x is not None]
+            if seq != sorted(seq) or len(set(seq)) != len(seq):
+                findings.append(finding("R-CONSTBRANCH.order", prop, o, init_str(callee, args), "run-time function receives the specialisation's parameters in the order %s (positions), expected increasing" % seq))
+        # locals derived from the result without arithmetic
+        changed = True
+        while changed:
+            changed = False
+            for name, init in locs.items():
+                if name in results:
+                    continue
+                if re.fullmatch(r"\(\* %(\w+)\)|unwrap\(%(\w+)\)|(?:nmtools::)?get<\d+>\(%(\w+)\)|(?:::)?nmtools::len\(%(\w+)\)|len\(%(\w+)\)|%(\w+)", init):
+                    base = [g for g in re.fullmatch(r"\(\* %(\w+)\)|unwrap\(%(\w+)\)|(?:nmtools::)?get<\d+>\(%(\w+)\)|(?:::)?nmtools::len\(%(\w+)\)|len\(%(\w+)\)|%(\w+)", init).groups() if g][0]
+                    if base in results:
+                        results.add(name); changed = True
+        elem = set()
+        for f in allfacts:
+            if f["k"] == "local":
+                m = re.fullmatch(r"(?:nmtools::)?at\((?:\(\* )?(?:unwrap\()?%(\w+)\)*,.*\)", f["b"])
+                if m and m.group(1) in results:
+                    elem.add(f["a"])
+        def strip_at(v):
+            # at(X, <index expr>) -> X : arithmetic on the *position* is not arithmetic on the value
+            prev = None
+            while prev != v:
+                prev = v
+                v = re.sub(r"(?:::)?(?:nmtools::)?at\(\s*((?:[^(),]|\([^()]*\))+?)\s*,(?:[^()]|\([^()]*\))*\)", r"\1", v)
+            v = re.sub(r"\b(?:unwrap|static_cast<[^<>]*>)\(([^()]*)\)", r"\1", v)
+            v = re.sub(r"\((?:::)?[\w:]+(?:<[^<>]*>)?\)(?=[\w(*])", "", v)          # C-style casts (T)x
+            v = v.replace("*", "", 1) if v.startswith("*") else v
+            return v.strip()
+        for f, kind, val in consts:
+            core = strip_at(val)
+            first = core.split(",")[-1].strip() if kind == "clipped_integer_t" else core
+            ok = first in results or first in elem or first in params \
+                or (re.fullmatch(r"\w+::(value|max|min)", first) and first.split("::")[0] in params) \
+                or first in tbl["allowed_const_names"].get(tag, {})
+            if not ok:
+                findings.append(finding("R-CONSTBRANCH.value", prop, o, "%s<%s>" % (kind, val), "constant %s<%s> is not the unmodified result of the paired run-time call (results: %s)" % (kind, val, sorted(results | elem))))
+        if len(samples) < 5:
+            samples.append("R-CONSTBRANCH %s: %s = %s" % (tag, calls[0][0], init_str(*calls[0][1])))
+    return findings, n_inst, samples
+
+
+def init_str(callee, args):
+    return "%s(%s)" % (callee, ",".join(args))
+
+
+def comp_constbranch(prop, tier, comp, work):
+    t0 = time.time()
+    tu, n = gen_umbrella(["nmtools/array/index"], work, "umb_idx.cpp")
+    rows, err, cmd = run_nmlint(tu, filters=["include/nmtools/array/index/"])
+    out = dict(broken=[], units=n, functions=len(rows), cmd=cmd)
+    if err:
+        out["broken"].append(err); return out
+    f, inst, samples = rule_constbranch(rows, prop)
+    out.update(findings=f, instances={"R-CONSTBRANCH": inst}, evaluations=inst, distinct_nontrivial=inst - len(set(x["function"] + x["file"] + str(x["line"]) for x in f)), samples=samples, wall_s=round(time.time() - t0, 2))
+    return out
+
+
+# --------------------------------------------------------------------------------------------
 # driver
 # --------------------------------------------------------------------------------------------
 def run(prop, tier, spec, jobs=16):
@@ -694,4 +820,4 @@ def comp_fwd_array(prop, tier, comp, work):
     return out
 
 
-RULES = {"R-FWD.array": comp_fwd_array, "R-FWD.functional": comp_fwd_functional, "R-UFUNC": comp_ufunc, "R-KSIB": comp_ksib, "R-SIMD": comp_simd}
+RULES = {"R-FWD.array": comp_fwd_array, "R-FWD.functional": comp_fwd_functional, "R-UFUNC": comp_ufunc, "R-KSIB": comp_ksib, "R-SIMD": comp_simd, "R-CONSTBRANCH": comp_constbranch}
